@@ -2129,3 +2129,283 @@ func ruleFinishRenameLast(r *Report) {
 		r.OK(rule, key, renames[0].Pos(), "the rename is the last step of finishing a compaction")
 	}
 }
+
+// leadingConst: the constant text a path's last element is known to start with ("" when it starts with something
+// dynamic): filepath.Join(…, x) → x; "lit" + y → "lit"; fmt.Sprintf("lit%d", …) → "lit"; cells through their stores.
+func leadingConst(v ssa.Value, depth int) string {
+	if depth > 8 || v == nil {
+		return ""
+	}
+	switch x := v.(type) {
+	case *ssa.Const:
+		if x.Value != nil && x.Value.Kind() == constant.String {
+			return constant.StringVal(x.Value)
+		}
+	case *ssa.BinOp:
+		if x.Op == token.ADD {
+			l := leadingConst(x.X, depth+1)
+			if _, isC := x.X.(*ssa.Const); isC {
+				return l + leadingConst(x.Y, depth+1)
+			}
+			return l
+		}
+	case *ssa.Call:
+		if sc := x.Call.StaticCallee(); sc != nil {
+			switch FuncKey(sc) {
+			case "path/filepath.Join":
+				// variadic: the elements sit in a slice built just before the call
+				if sl, ok := x.Call.Args[0].(*ssa.Slice); ok {
+					if al, isA := sl.X.(*ssa.Alloc); isA {
+						var last ssa.Value
+						lastIdx := int64(-1)
+						for _, rf := range *al.Referrers() {
+							ia, isI := rf.(*ssa.IndexAddr)
+							if !isI {
+								continue
+							}
+							idx, isK := constInt(ia.Index)
+							if !isK {
+								continue
+							}
+							for _, rr := range *ia.Referrers() {
+								if st, isS := rr.(*ssa.Store); isS && idx > lastIdx {
+									last, lastIdx = st.Val, idx
+								}
+							}
+						}
+						return leadingConst(last, depth+1)
+					}
+				}
+			case "fmt.Sprintf":
+				if c, ok := x.Call.Args[0].(*ssa.Const); ok && c.Value != nil && c.Value.Kind() == constant.String {
+					f := constant.StringVal(c.Value)
+					if i := strings.Index(f, "%"); i >= 0 {
+						f = f[:i]
+					}
+					return f
+				}
+			}
+		}
+	case *ssa.UnOp:
+		if x.Op == token.MUL && isCell(x.X) {
+			vals, unknown := reachingStores(x)
+			if unknown || len(vals) != 1 {
+				return ""
+			}
+			return leadingConst(vals[0], depth+1)
+		}
+	}
+	return ""
+}
+
+// R-staging-name-recognised (C10, C02): a flush writes its table into a staging folder and renames it into place; a kill
+// in between leaves the staging folder behind, and the next Open has to recognise it as a leftover — by its name. So
+// the name the flush gives the folder starts with a prefix the recovery walk tests for *and skips* before it takes
+// folders for tables; likewise the compaction's folder and the prefix repairCompactions looks for.
+func ruleStagingNameRecognised(r *Report) {
+	const rule = "staging-name-recognised"
+	r.Rule(rule, 2, "the staging folder of a flush (MkdirAll in executeFlush) and of a compaction (MkdirTemp in executeCompaction) is named with a constant prefix that the recovery walk tests with strings.HasPrefix (the flush prefix before the table prefix, the compaction prefix in repairCompactions)")
+	p := r.P
+	prefixesTested := func(fk string) []string {
+		var out []string
+		fn := p.Func(fk)
+		if fn == nil {
+			return nil
+		}
+		for _, g := range closuresOf(fn) {
+			for _, s := range CallsIn(g, Keys("strings.HasPrefix")) {
+				if c, ok := s.Call().Common().Args[1].(*ssa.Const); ok && c.Value != nil && c.Value.Kind() == constant.String {
+					out = append(out, constant.StringVal(c.Value))
+				}
+			}
+		}
+		return out
+	}
+	type pair struct{ producer, callee, consumer, what string }
+	for _, pr := range []pair{
+		{"simpledb.executeFlush", "os.MkdirAll", "simpledb.DB.reconstructSSTables", "flush"},
+		{"simpledb.executeCompaction", "os.MkdirTemp", "simpledb.DB.repairCompactions", "compaction"},
+	} {
+		fn := r.NeedFunc(rule, pr.producer)
+		if fn == nil {
+			continue
+		}
+		key := rule + "/" + pr.producer
+		tested := prefixesTested(pr.consumer)
+		sites := CallsIn(fn, Keys(pr.callee))
+		if len(sites) == 0 || len(tested) == 0 {
+			r.Unk(rule, key, fn.Pos(), "staging folder creation or the recovery's prefix tests not found")
+			continue
+		}
+		good := true
+		lead := ""
+		for _, s := range sites {
+			a := s.Call().Common().Args
+			nameArg := a[0]
+			if pr.callee == "os.MkdirTemp" {
+				nameArg = a[1]
+			}
+			lead = leadingConst(nameArg, 0)
+			hit := false
+			for _, t := range tested {
+				// the recovery's test must hold for every name the producer can make: its prefix is a prefix of ours
+				if t != "" && strings.HasPrefix(lead, t) && t != "sstable" {
+					hit = true
+				}
+			}
+			if !hit {
+				good = false
+			}
+		}
+		if good {
+			r.OK(rule, key, sites[0].Pos(), "staging folder names start with \""+lead+"\", which the recovery tests for")
+		} else {
+			r.Bad(rule, key, sites[0].Pos(), fmt.Sprintf("the %s staging folder's name starts with %q, which is none of the leftovers the recovery walk recognises %v: after a kill inside the %s window the folder is taken for a table (or not found) and every later Open fails", pr.what, lead, tested, pr.what))
+		}
+	}
+}
+
+// R-open-runs-recovery (C10, C02): what the directory needs depends on the process that died, not on the options of the
+// process that opens it: every way to a successful Open passes all three recovery steps.
+func ruleOpenRunsRecovery(r *Report) {
+	const rule = "open-runs-recovery"
+	r.Rule(rule, 3, "every success return of simpledb.DB.Open is reached only through successful calls of repairCompactions, reconstructSSTables and replayAndSetupWriteAheadLog — none of them is conditional on an option")
+	fn := r.NeedFunc(rule, "simpledb.DB.Open")
+	if fn == nil {
+		return
+	}
+	o := &order{r, r.P}
+	for _, k := range []string{"simpledb.DB.repairCompactions", "simpledb.DB.reconstructSSTables", "simpledb.DB.replayAndSetupWriteAheadLog"} {
+		A := CallsIn(fn, Keys(k))
+		key := rule + "/" + k
+		if len(A) == 0 {
+			// through a helper that runs the recovery steps: Open succeeds only behind the helper, the helper only behind k
+			var via []Site
+			var helper *ssa.Function
+			eachInstr(fn, func(s Site) {
+				if c, ok := s.Instr.(*ssa.Call); ok {
+					if sc := c.Call.StaticCallee(); sc != nil && inModule(sc) && len(CallsIn(sc, Keys(k))) > 0 {
+						via, helper = append(via, s), sc
+					}
+				}
+			})
+			if helper == nil {
+				r.Bad(rule, key, fn.Pos(), "Open never calls "+k)
+				continue
+			}
+			o.OnlyAfterSuccess(rule, key, fn, FuncKey(helper), via, "the success return of Open", nilReturns(fn), nil)
+			// the helper's success exits: its nil returns, and returns that forward the result of another step as it is
+			// (`return db.replayAndSetupWriteAheadLog()` succeeds exactly when that step does)
+			B := nilReturns(helper)
+			hidx := errorResultIndex(helper)
+			for _, rs := range returnsOf(helper) {
+				ret := rs.Instr.(*ssa.Return)
+				if hidx < 0 || hidx >= len(ret.Results) {
+					continue
+				}
+				if c, isC := ret.Results[hidx].(*ssa.Call); isC && c.Call.StaticCallee() != nil && FuncKey(c.Call.StaticCallee()) != k {
+					// returned untested (a tested error that is returned is the failure exit, not a success exit)
+					if su, fa := errorEdges(siteOf(c)); len(su) == 0 && len(fa) == 0 {
+						B = append(B, rs)
+					}
+				}
+			}
+			if len(B) == 0 {
+				r.OK(rule, key+"/in-helper", helper.Pos(), "the helper returns this step's own result")
+			} else {
+				o.OnlyAfterSuccess(rule, key+"/in-helper", helper, k, CallsIn(helper, Keys(k)), "the success return of "+FuncKey(helper), B, nil)
+			}
+			continue
+		}
+		o.OnlyAfterSuccess(rule, key, fn, k, A, "the success return of Open", nilReturns(fn), nil)
+	}
+}
+
+// R-replay-counts-every-mutation (C17, C02, C10, C13): after the replay the memstore is flushed into a table before the
+// WAL folder is removed — but only when the replay counted something. A counter that is not moved by every kind of record
+// (deletes as well as puts) lets a delete-only log be removed with its tombstones in memory only: a second crash and the
+// deleted keys are back.
+func ruleReplayCountsEveryMutation(r *Report) {
+	const rule = "replay-counts-every-mutation"
+	r.Rule(rule, 1, "in the replay callback of replayAndSetupWriteAheadLog every call that applies a record to the memstore (Upsert, Tombstone, Delete…) is dominated by the increment of the counter whose test guards the flush before the WAL removal")
+	p := r.P
+	fn := r.NeedFunc(rule, "simpledb.DB.replayAndSetupWriteAheadLog")
+	if fn == nil {
+		return
+	}
+	key := rule + "/simpledb.DB.replayAndSetupWriteAheadLog"
+	// the counter cell: tested against 0 in a block that dominates the executeFlush call
+	flushes := CallsIn(fn, Keys("simpledb.executeFlush"))
+	var counter ssa.Value
+	for _, b := range liveBlocks(fn) {
+		cnd, _, _, _, _, ok := effCond(b)
+		if !ok {
+			continue
+		}
+		var sides []ssa.Value
+		if bo, isB := cnd.(*ssa.BinOp); isB {
+			sides = []ssa.Value{bo.X, bo.Y}
+		} else {
+			sides = []ssa.Value{cnd} // a flag instead of a count
+		}
+		for _, f := range flushes {
+			if !b.Dominates(f.Block) {
+				continue
+			}
+			for _, side := range sides {
+				if u, isU := side.(*ssa.UnOp); isU && u.Op == token.MUL && isCell(u.X) {
+					counter = rootCell(u.X)
+				}
+			}
+		}
+	}
+	if counter == nil || len(flushes) == 0 {
+		r.Unk(rule, key, fn.Pos(), "the counter that guards the flush after the replay was not recognised")
+		return
+	}
+	bad := ""
+	n := 0
+	for _, g := range closuresOf(fn) {
+		if g == fn || !isReplayCallback(g) {
+			continue
+		}
+		var incs []Site
+		eachInstr(g, func(s Site) {
+			if st, ok := s.Instr.(*ssa.Store); ok && isCell(st.Addr) && rootCell(st.Addr) == counter {
+				incs = append(incs, s)
+			}
+		})
+		eachInstr(g, func(s Site) {
+			c, ok := s.Instr.(ssa.CallInstruction)
+			if !ok {
+				return
+			}
+			ck := CalleeKey(c)
+			if !strings.Contains(ck, "RWMemstore.") && !strings.Contains(ck, "MemStoreI.") {
+				return
+			}
+			switch ck[strings.LastIndex(ck, ".")+1:] {
+			case "Upsert", "Add", "Tombstone", "Delete", "DeleteIfExists":
+			default:
+				return
+			}
+			n++
+			dom := false
+			for _, inc := range incs {
+				if inc.Block == s.Block && precedes(inc, s) || inc.Block != s.Block && inc.Block.Dominates(s.Block) {
+					dom = true
+				}
+			}
+			if !dom {
+				bad = ck + " at " + p.Pos(s.Pos())
+			}
+		})
+	}
+	if n == 0 {
+		r.Unk(rule, key, fn.Pos(), "no memstore mutation found in the replay callback")
+	} else if bad != "" {
+		r.Bad(rule, key, fn.Pos(), "the record applied by "+bad+" does not move the counter that decides whether the replayed memstore is flushed before the WAL folder is removed: a log that holds only such records is removed with its effects in memory only — after a second crash deleted keys read as their old values again")
+	} else {
+		r.OK(rule, key, fn.Pos(), fmt.Sprintf("%d applying call(s), each behind the counter's increment", n))
+	}
+}
